@@ -209,8 +209,8 @@ Symbols(v, p, counts, acc) ==
   LET k == KindIdx(At(v, p)) IN
   IF k = 0 \/ IsZero(counts[k]) \/ (k = 5 /\ Is(v, p + 1, NL)) THEN <<TRUE, acc, p>>         \* "c\n" starts the comment
   ELSE Let(NumTok(v, p + 1, Pred(counts[k])), LAMBDA ix :
-       IF ~ix[1] THEN Bad(acc, v, p)
-       ELSE IF ~Is(v, ix[3], SP) THEN <<FALSE, acc, p, RunEnd(v, ix[3])>>
+       IF ~ix[1] THEN Bad(acc, v, p + 1)
+       ELSE IF ~Is(v, ix[3], SP) THEN Bad(acc, v, ix[3])
        ELSE LET e == NextNlPos(v, ix[3] + 1)
                 u == Utf8Valid(v, ix[3] + 1, e) IN
             IF At(v, e) = None THEN <<FALSE, acc, e, e>>
@@ -222,7 +222,7 @@ Symbols(v, p, counts, acc) ==
 Comment(v, p) ==
   IF p = Len(v) THEN <<TRUE, <<>>, p>>
   ELSE IF ~Is(v, p, 99) THEN Bad(<<>>, v, p)
-  ELSE IF ~Is(v, p + 1, NL) THEN <<FALSE, <<>>, p, RunEnd(v, p)>>
+  ELSE IF ~Is(v, p + 1, NL) THEN Bad(<<>>, v, p + 1)
   ELSE LET u == Utf8Valid(v, p + 2, Len(v)) IN
        IF u < Len(v) THEN <<FALSE, <<>>, u, u>>
        ELSE IF p + 2 = Len(v) THEN <<TRUE, <<<<"comment", <<>>>>>>, Len(v)>>
